@@ -519,3 +519,52 @@ def gauss_type():
     """loop type for a variable that holds a Gaussian integer"""
     return T("build", lambda ctx, name: GaussV(z3.Int(ctx.fresh_name(name + ".re")), z3.Int(ctx.fresh_name(name + ".im"))),
              gen=lambda rng: complex(rng.randint(-2, 2), rng.randint(-2, 2)))
+
+
+def with_standin(ob, fc, case, tries=2500, budget_s=40):
+    """DESIGN 2.6: when the proof of an E1 obligation is lost (extraction refused, invariant no longer binds, solver unknown)
+    the function's bounded stand-in runs -- the executable contract on the REAL function over generated inputs.  A failing input
+    is a violation (replayed); none within the budget leaves the obligation UNDECIDED with `standin: passed` (exit 0, evidence
+    downgraded to level `other`, obligation listed under proof_lost).  Proved / refuted outcomes pass through unchanged."""
+    from ..common import Outcome, REFUTED, UNDECIDED
+    from .contract import search_counterexample
+    from . import spec as S
+    inner = ob.fn
+
+    def fn():
+        out = inner()
+        if out.status != UNDECIDED:
+            return out
+        try:
+            found = search_counterexample(fc, case, seed=1, tries=tries, budget_s=budget_s)
+        except Exception as ex:  # pylint: disable=broad-except
+            out.extra = dict(out.extra or {}, standin="unavailable", standin_error=f"{type(ex).__name__}: {ex}")
+            return out
+        if found:
+            rp, model = found
+            return Outcome(REFUTED, "pyvc(undecided)+bounded-standin", f"proof lost ({out.detail[:200]}); the real function violates the executable "
+                           "contract on a generated input", witness=dict(inputs=S.show(model)), replay=rp, extra=dict(out.extra or {}, model=model))
+        probe = _standin_runs(fc, case)
+        out.extra = dict(out.extra or {}, standin="passed" if probe else "unavailable", standin_points=probe)
+        return out
+    ob.fn = fn
+    return ob
+
+
+def _standin_runs(fc, case, n=40):
+    """number of generated inputs on which the executable contract could actually be evaluated (0 => the stand-in is not available)"""
+    import random
+    from .contract import gen_value, replay_case
+    rng = random.Random(5)
+    ok = 0
+    for _ in range(n):
+        try:
+            m = {p: gen_value(fc.world, t, rng) for p, t in case.params.items()}
+            if case.native_gen is not None:
+                m = dict(case.native_gen(rng, m), __generated__=True)
+            rp = replay_case(fc, case, m)
+            if rp.get("confirmed") is False and "precondition" not in str(rp.get("note", "")):
+                ok += 1
+        except Exception:  # pylint: disable=broad-except
+            pass
+    return ok
